@@ -344,10 +344,16 @@ def suspend (st : Sub) : S Unit := do
   flush
   modS fun s => { s with step := .commands, stepState := st }
 
-/-- `readCommands` from a label on (`fuel` bounds the number of jumps). -/
-def cmdLoop (sd : ByteArray) : Nat → Label → S Unit
-  | 0, _ => spanic .corrupted
-  | fuel+1, .startCommand => do
+/-- where a label of `readCommands` ends: `goto` another label, or return from `readCommands`
+    (suspended for more buffer space, or done with the meta-block). -/
+inductive Next where
+  | goto (l : Label)
+  | ret
+deriving Repr, DecidableEq, Inhabited
+
+/-- the block of code at one label of `readCommands`. -/
+def doLabel (sd : ByteArray) : Label → S Next
+  | .startCommand => do
     if (← getS).iacBlk.typeLen = 0 then do
       let bd ← liftR (readBlockSwitch (← getS).iacBlk)
       modS fun s => { s with iacBlk := bd }
@@ -359,19 +365,21 @@ def cmdLoop (sd : ByteArray) : Nat → Label → S Unit
     let cpyExtra ← liftR (readBits rec_.2.extra)
     modS fun s => { s with insLen := rec_.1.base + insExtra, cpyLen := rec_.2.base + cpyExtra,
                              distZero := decide (iacSym < 128) }
-    if rec_.1.base + insExtra > 0 then cmdLoop sd fuel .readLiterals
-    else cmdLoop sd fuel .readDistance
-  | fuel+1, .readLiterals => do
+    if rec_.1.base + insExtra > 0 then pure (.goto .readLiterals)
+    else pure (.goto .readDistance)
+  | .readLiterals => do
     let s ← getS
     let n := min s.dict.availSize s.insLen                 -- len(buf)
     let (p1, p2) := s.dict.lastBytes
     litLoop n p1 p2
     modS fun s => { s with insLen := s.insLen - n, blkLen := s.blkLen - n }
     let s ← getS
-    if s.insLen > 0 then suspend .literals
-    else if s.blkLen > 0 then cmdLoop sd fuel .readDistance
-    else cmdLoop sd fuel .finishCommand
-  | fuel+1, .readDistance => do
+    if s.insLen > 0 then do
+      suspend .literals
+      pure .ret
+    else if s.blkLen > 0 then pure (.goto .readDistance)
+    else pure (.goto .finishCommand)
+  | .readDistance => do
     let s ← getS
     if s.distZero then modS fun s => { s with dist := s.dists0 }
     else do
@@ -390,14 +398,16 @@ def cmdLoop (sd : ByteArray) : Nat → Label → S Unit
     if s.dist ≤ s.dict.histSize then do
       if !s.distZero then
         modS fun s => { s with dists3 := s.dists2, dists2 := s.dists1, dists1 := s.dists0, dists0 := s.dist }
-      cmdLoop sd fuel .copyDynamicDict
-    else cmdLoop sd fuel .copyStaticDict
-  | fuel+1, .copyDynamicDict => do
+      pure (.goto .copyDynamicDict)
+    else pure (.goto .copyStaticDict)
+  | .copyDynamicDict => do
     let cnt ← dictWriteCopy
     modS fun s => { s with blkLen := s.blkLen - cnt, cpyLen := s.cpyLen - cnt }
-    if (← getS).cpyLen > 0 then suspend .dynamicDict
-    else cmdLoop sd fuel .finishCommand
-  | fuel+1, .copyStaticDict => do
+    if (← getS).cpyLen > 0 then do
+      suspend .dynamicDict
+      pure .ret
+    else pure (.goto .finishCommand)
+  | .copyStaticDict => do
     let s ← getS
     if s.word.isEmpty then do
       match staticWord sd s.cpyLen (s.dist - (s.dict.histSize + 1)) with
@@ -405,15 +415,26 @@ def cmdLoop (sd : ByteArray) : Nat → Label → S Unit
       | .ok w => modS fun s => { s with word := w }
     let cnt ← dictWriteWord
     modS fun s => { s with word := s.word.drop cnt, blkLen := s.blkLen - cnt }
-    if !(← getS).word.isEmpty then suspend .staticDict
-    else cmdLoop sd fuel .finishCommand
-  | fuel+1, .finishCommand => do
+    if !(← getS).word.isEmpty then do
+      suspend .staticDict
+      pure .ret
+    else pure (.goto .finishCommand)
+  | .finishCommand => do
     let s ← getS
     if s.blkLen < 0 then spanic .corrupted
-    else if s.blkLen > 0 then cmdLoop sd fuel .startCommand
+    else if s.blkLen > 0 then pure (.goto .startCommand)      -- more commands in this block
     else do
       flush
       modS fun s => { s with step := .blockHeader, stepState := .init }
+      pure .ret
+
+/-- `readCommands` from a label on: follow the gotos (`fuel` bounds their number). -/
+def cmdLoop (sd : ByteArray) : Nat → Label → S Unit
+  | 0, _ => spanic .corrupted
+  | fuel+1, l => do
+    match ← doLabel sd l with
+    | .goto l' => cmdLoop sd fuel l'
+    | .ret => pure ()
 
 /-- `readCommands`: enter at the label `stepState` names. -/
 def readCommands (sd : ByteArray) : S Unit := fun s =>
